@@ -50,7 +50,7 @@ FieldClauses(fam, b, g) ==
       ELSE <<>>)
   \o (IF fam = "shutter" THEN Cl(g.position = d.position, "C05:position") \o Cl(g.direction = d.direction, "C05:direction") ELSE <<>>)
 
-OnlyCallbackExc(e) == \A k \in 1..Len(e.excs) : e.cbraise /\ e.excs[k] = "CallbackBoom"
+OnlyCallbackExc(e) == \A k \in 1..Len(e.excs) : e.cbraise /\ e.excs[k] \in {"CallbackBoom", "CallbackBase", "CancelledError"}
 
 JudgeDgram(e) ==
   LET listening == Owner(e.p) # {}
@@ -102,6 +102,8 @@ Step(e) ==
                                   ELSE IF \E j \in 1..Len(B.ports) : ~ValidPort(B.ports[j]) THEN "-invalid-port" ELSE "-port-taken")
                     \o (IF k = 2 THEN "-second-bridge" ELSE ""),
            Upd(k, AfterStart(B)), occ, known)
+    [] e.ev = "StartCancelled" ->     \* e.n = binds completed before the cancellation (observed), e.k = loop cycles the start was given
+         R(Cl(e.n <= Len(B.ports), "harness:cancelled-start"), "start-cancelled", Upd(k, AfterCancelledStart(B, e.n)), occ, known)
     [] e.ev = "Stop" ->
          R(Cl(~e.raised, "C17:stop-raised"),
            "stop-" \o e.how \o (IF B.running THEN "" ELSE "-while-stopped") \o (IF k = 2 THEN "-second-bridge" ELSE ""), Upd(k, AfterStop(B)), occ, known)
